@@ -382,6 +382,27 @@ example : ∃ s, State.open 1000 true = .ok s ∧
         (.call 1 none .m_type ⟨.returns, .none⟩)).2 = .bad :=
   ⟨_, rfl, by decide +kernel, by decide +kernel⟩
 
+/-! ## reading a time stamp does not depend on the object through which it is read -/
+
+/-- (table) for every entity kind, the `created_at` / `updated_at` getter Python resolves is exactly
+`return util.str_to_time(<that stored attribute>)`: a getter that keeps a copy in the Python object,
+or reads the other attribute, breaks this theorem -/
+theorem C19_getters_read_store (k : Kind) :
+    getterBody k.cls .created = some (.parsesStored .created) ∧
+    getterBody k.cls .updated = some (.parsesStored .updated) := by
+  cases k <;> exact ⟨by decide +kernel, by decide +kernel⟩
+
+/-- hence what any handle reports is the parsed stored attribute of the file — in every state, for
+every entity -/
+theorem C19_observe_is_stored (s : State) (i : Nat) :
+    observe s i .created = readCreated s i ∧ observe s i .updated = readUpdated s i := by
+  simp only [observe, readCreated, readUpdated]
+  cases h : s.ents[i]? with
+  | none => exact ⟨rfl, rfl⟩
+  | some e =>
+    obtain ⟨hc, hu⟩ := C19_getters_read_store e.kind
+    simp [hc, hu, Ent.stored]
+
 /-! ## forcing a time stamp and reading it back, also after re-opening -/
 
 /-- operations that only concern the session: re-opening, the switch, the clock -/
@@ -413,7 +434,7 @@ theorem run_session (ops : List Op) : ∀ (s : State), (∀ op ∈ ops, Op.isSes
 /-- forcing `created_at` / `updated_at` of a live entity (of any kind that has the force methods:
 all but `Feature`) to a whole second of 1970…2100 is accepted and the entity then reports that
 second — also after any sequence of close/re-open, switch and clock changes -/
-theorem C19_force_roundtrip (s : State) (e : Nat) (ent : Ent) (t : Int) (sess : List Op)
+theorem force_roundtrip_stored (s : State) (e : Nat) (ent : Ent) (t : Int) (sess : List Op)
     (he : s.ents[e]? = some ent) (halive : ent.alive = true) (hk : ent.kind ≠ .feature)
     (ht : InRange t) (hsess : ∀ op ∈ sess, Op.isSession op = true) :
     ((step s (.forceUpdated e (.at t))).2 = .done ∧
@@ -455,6 +476,68 @@ theorem C19_force_roundtrip (s : State) (e : Nat) (ent : Ent) (t : Int) (sess : 
       simp only [readCreated, run_session sess _ hsess, getElem?_setCreated, he, Option.map_some,
         if_true]
       simp [readStamp, hr]
+
+/-- forcing `created_at` / `updated_at` of a live entity (of any kind that has the force methods:
+all but `Feature`) to a whole second of 1970…2100 is accepted and the entity's getter then returns
+that second — through whatever object it is read, also after any sequence of close/re-open, switch
+and clock changes -/
+theorem C19_force_roundtrip (s : State) (e : Nat) (ent : Ent) (t : Int) (sess : List Op)
+    (he : s.ents[e]? = some ent) (halive : ent.alive = true) (hk : ent.kind ≠ .feature)
+    (ht : InRange t) (hsess : ∀ op ∈ sess, Op.isSession op = true) :
+    ((step s (.forceUpdated e (.at t))).2 = .done ∧
+      observe (run (step s (.forceUpdated e (.at t))).1 sess) e .updated = some (.ok (some t))) ∧
+    ((step s (.forceCreated e (.at t))).2 = .done ∧
+      observe (run (step s (.forceCreated e (.at t))).1 sess) e .created = some (.ok (some t))) := by
+  have h := force_roundtrip_stored s e ent t sess he halive hk ht hsess
+  rw [(C19_observe_is_stored _ e).2, (C19_observe_is_stored _ e).1]
+  exact h
+
+/-- a force call that does not succeed (argument of another type: TypeError; a second `datetime`
+cannot represent: ValueError; `Feature`, which has no force methods: AttributeError) leaves the
+whole state as it was — for every argument, also outside 1970…2100 -/
+theorem C19_force_refused_unchanged (s : State) (e : Nat) (t : TimeArg) :
+    ((step s (.forceCreated e t)).2 ≠ .done → (step s (.forceCreated e t)).1 = s) ∧
+    ((step s (.forceUpdated e t)).2 ≠ .done → (step s (.forceUpdated e t)).1 = s) := by
+  constructor
+  · simp only [step]
+    repeat' split
+    all_goals simp
+  · simp only [step]
+    repeat' split
+    all_goals simp
+
+/-- forcing one stamp never alters the other one: `force_created_at` leaves every stored
+`updated_at` alone and `force_updated_at` every stored `created_at` (any argument, any entity) -/
+theorem C19_force_only_own_stamp (s : State) (e : Nat) (t : TimeArg) (j : Nat) (x : Ent)
+    (h : s.ents[j]? = some x) :
+    (∃ x', (step s (.forceCreated e t)).1.ents[j]? = some x' ∧ x'.updated = x.updated) ∧
+    (∃ x', (step s (.forceUpdated e t)).1.ents[j]? = some x' ∧ x'.created = x.created) := by
+  constructor
+  · obtain ⟨x', h', hs⟩ := step_ent s (.forceCreated e t) j x h
+    refine ⟨x', h', ?_⟩
+    cases hs with
+    | same => rfl
+    | dead => rfl
+    | touched v _ hc _ _ => simp [Lemmas.Op.isCall] at hc
+    | forcedU t' v hop _ => cases hop
+    | forcedC t' v _ _ => rfl
+  · obtain ⟨x', h', hs⟩ := step_ent s (.forceUpdated e t) j x h
+    refine ⟨x', h', ?_⟩
+    cases hs with
+    | same => rfl
+    | dead => rfl
+    | touched v _ hc _ _ => simp [Lemmas.Op.isCall] at hc
+    | forcedU t' v _ _ => rfl
+    | forcedC t' v hop _ => cases hop
+
+/-- outside 1970…2100 the model follows the code: a negative second within the four-digit years
+reads back, the first second of year 10000 is refused (ValueError), a value that is not an `int`
+is refused (TypeError), `Feature` has no force methods (AttributeError) -/
+example : ∃ s, State.open 1000 true = .ok s ∧
+    observe (step s (.forceUpdated 0 (.at (-1)))).1 0 .updated = some (.ok (some (-1))) ∧
+    (step s (.forceUpdated 0 (.at 253402300800))).2 = .err .valueError ∧
+    (step s (.forceCreated 0 .badType)).2 = .err .typeError :=
+  ⟨_, rfl, by decide +kernel, by decide +kernel, by decide +kernel⟩
 
 example : ∃ s, State.open 1000 true = .ok s ∧
     readUpdated (run (step s (.forceUpdated 0 (.at 4102444799))).1 [.reopen false, .setClock 5]) 0
